@@ -147,18 +147,21 @@ def explore(cfg, invariants, how, wd, sim_num=0, sim_depth=30, timeout=600, work
     return r, paths
 
 
-def replay_and_validate(pid, groups, wd, verdict, check_totality=False, workers=16):
+def replay_and_validate(pid, groups, wd, verdict, check_totality=False, workers=16, monitors=None):
     """groups: list of (cfg, paths, tag). Replays every path on the real code and validates the recorded traces with TLC.
     Returns dict with counts."""
     drv = vlib.build_harness()
-    cfgs, paths, pathcfg, tags = [], [], [], []
-    for gi, (cfg, ps, tag) in enumerate(groups):
+    cfgs, paths, pathcfg, tags, pathids = [], [], [], [], []
+    for gi, g in enumerate(groups):
+        cfg, ps, tag = g[0], g[1], g[2]
+        ids = g[3] if len(g) > 3 else None      # optional: one identifier map per path
         cfgs.append(job_cfg(cfg))
-        for p in ps:
+        for pi, p in enumerate(ps):
             paths.append(p)
             pathcfg.append(gi)
             tags.append(tag)
-    job = dict(cfgs=cfgs, paths=paths, pathcfg=pathcfg, tags=tags, workers=workers)
+            pathids.append(ids[pi] if ids else None)
+    job = dict(cfgs=cfgs, paths=paths, pathcfg=pathcfg, tags=tags, workers=workers, pathids=pathids)
     jobfile = os.path.join(wd, "job.json")
     with open(jobfile, "w") as f:
         json.dump(job, f)
@@ -201,7 +204,7 @@ def replay_and_validate(pid, groups, wd, verdict, check_totality=False, workers=
         for (tag, o) in r.prints:
             if tag == "VIOL":
                 viols.append((gi, o))
-    mine = set(MONITORS[pid])
+    mine = set(monitors or MONITORS[pid])
     for gi, o in viols:
         if o["mon"] not in mine:
             continue
@@ -209,7 +212,8 @@ def replay_and_validate(pid, groups, wd, verdict, check_totality=False, workers=
         events = [json.loads(x) for x in traces[t]]
         sig = "%s/%s" % (o["mon"], signature(events[:o["l"] - first_line(traces, per[gi], t) + 1]))
         verdict.violation(sig, "monitor %s is false on the real hand-over log of replayed behaviour %d (config %s)" % (
-            o["mon"], t, groups[gi][0]["name"]), dict(property=pid, monitor=o["mon"], config=full(groups[gi][0]), path=paths[t], real_trace=events))
+            o["mon"], t, groups[gi][0]["name"]) + (" ids=%s" % pathids[t] if pathids[t] else ""),
+            dict(property=pid, monitor=o["mon"], config=full(groups[gi][0]), path=paths[t], ids=pathids[t], real_trace=events))
     if traces:
         k = sorted(traces)[len(traces) // 2]
         stats["samples"] = [dict(config=groups[pathcfg[k]][0]["name"], behaviour=paths[k], real_events=len(traces[k]))]
